@@ -6,6 +6,7 @@ import (
 	"go/types"
 	"os"
 	"path/filepath"
+	"time"
 
 	"golang.org/x/tools/go/ssa"
 )
@@ -23,37 +24,42 @@ type c01Ctx struct {
 	spec *c01Spec
 	fns  []*ssa.Function
 	pkg  string // full package path
+
+	dirs      map[string]*c01Dir
+	graphs    map[string]*cGraph
+	fillReads map[*ssa.Call]bool // Reads that fill segments (the others read the header)
 }
 
 func checkC01(c *Ctx) {
 	r, p := c.R, c.P
 	r.Explanation = "Decides structural necessary conditions of C01 on schemes/enc/v1, each compared with the in-repo published spec (README.md) where the spec gives a number, a name or a formula. " +
-		"(R1) io.Reader contract at every Read: the byte count is consumed before/independently of the error, the Read sits in a loop that is never left because one Read was short or empty; the segment fill loop is left only when the accumulated count reached segmentSize+1 or an error was seen, reads at most up to that bound, and the look-ahead decision uses the same bound. " +
-		"(R5) the arguments handed to the per-segment function: length = filled count minus the look-ahead byte, counter = 0,1,2,…, last = 'no look-ahead byte', and no segment follows one flagged last; (R6) an empty input reaches a clean Close without any segment. " +
-		"(R2) id/name tables: README ids <-> NewXFromID/ID/Validate, every accepted name survives Validate->ID->FromID->Validate, JSON (un)marshal goes through the tables, getCipher builds the AEAD the spec names from the payload key, Manifest JSON tags match the README. " +
-		"(R3) spec constants: scheme line, 65536-byte segments, 16-byte tag, 12-byte nonce = 7-byte prefix || big-endian uint32 counter || last flag, HKDF-SHA-256 (salt,info) pairs and which key they feed, HMAC-SHA-256, standard base64. " +
-		"(R4) sibling agreement: Encrypt/DecryptSegment use the same nonce function with their own (num,last), nil AAD; processSegments is driven with 65536 / 65536+16; SignHeader/VerifyHeaderSignature MAC the same message built from the scheme line and the raw manifest; Decrypt verifies the manifest bytes as read. " +
-		"(R7) bytes read past the header are pushed back in front of the stream that Decrypt goes on to read. (R8) the manifest is filled from the same cipher / nonce prefix / wrapped key that encrypt the payload, and Decrypt imports exactly the manifest's values. " +
-		"NOT decided: byte-for-byte round-trip equality; correctness of AEAD/HKDF/HMAC/JSON/base64 themselves (trusted libraries); consumer-side chunking (delegated to io.Pipe); behaviour on source errors and tampering (C02); that WrapKeyFn/UnwrapKeyFn are inverse."
+		"The stream rules are evaluated on the INLINED flow of the exported entry points Encrypt and Decrypt: every same-package callee (static call, method, closure, bound method, function value with a known target, goroutine body) is expanded context-sensitively, parameters are followed to arguments, results to the callee's returns, local cells / fields of local objects to the values stored (flow-sensitively where a unique reaching store exists). Constructs are found by role (the cipher.AEAD.Seal/Open call, the buffer handed to it as nonce, the Read of the entry point's io.Reader that shares a loop with it, the hkdf.New whose output keys the AEAD, the write that precedes the segments, the io.MultiReader assigned to the stream variable …), never by the name of an unexported function, method, type, field or local. " +
+		"(R1a/R1b) io.Reader contract at every Read of the input: the count is consumed independently of the error (also when the error is tested through a helper predicate), the Read sits in a loop that is never left because one Read was short or empty. (R1c) the segment fill loop is left only when the accumulated count reached the fill limit or an error was seen, reads at most up to that limit, and the limit is the README's segment size (+ tag size under Decrypt) + 1 look-ahead byte. (R1d) the header reader returns a nil error, not the last Read's, with a completely parsed header. " +
+		"(R5) the values that reach the nonce and the AEAD: last <=> 'count did not reach the limit' (symbolic evaluation over phis, return values and branch facts; decided from the Read error or another threshold = violation), data length = count-1 with look-ahead / count without, starting at the start of the fill buffer, the look-ahead byte buffer[count-1] is what is stored at buffer[0] with the count restarting at 1, counter 0,+1, nothing is processed after last; (R6) a zero-length test in front of the segment operation whose empty side reaches a clean Close. " +
+		"(R2) id/name tables (conditional constant propagation through switch / if / map-table forms): README ids <-> NewXFromID/ID/Validate, every accepted name survives Validate->ID->FromID->Validate, JSON (un)marshal goes through the tables, the AEAD constructor per accepted cipher, Manifest JSON tags. " +
+		"(R3) spec constants; nonce layout (12 bytes = 7-byte prefix || big-endian uint32 || last flag) in whichever function(s) build the nonce; for each direction the HKDF call whose output is the HMAC key / the AEAD key has the README's info and salt (salt origin = origin of the nonce prefix) and the wrapped / unwrapped file key as input; HMAC-SHA-256; standard base64; fresh key 32 bytes, prefix 7; header = MACed message || base64(MAC) || LF (make+copy+Encode or append/AppendEncode/Join forms); pooled buffer >= largest fill limit. " +
+		"(R4) no AAD; the MACed message is scheme line, LF, manifest, LF (Encrypt: json.Marshal output; Decrypt: the bytes exactly as read, never re-encoded); the size limit the header writer enforces covers the complete header and does not exceed what the header reader scans. (R7) the bytes read past the header are copied out of the pooled buffer and put, in front of the rest, into the stream variable the segment phase reads. (R8) Manifest fields at the point of marshalling originate in the cipher that selects the AEAD, the prefix copied into the nonces, WrapKeyFn's result and algorithm argument, with the documented key-name precedence; Decrypt feeds UnwrapKeyFn / nonce / AEAD selection from the manifest's fields; the signed header is written before the segment loop. " +
+		"NOT decided: byte-for-byte round-trip equality; correctness of AEAD/HKDF/HMAC/JSON/base64 themselves (trusted libraries); the header line scanner's index arithmetic; consumer-side chunking (delegated to io.Pipe); behaviour on source errors and tampering (C02); that WrapKeyFn/UnwrapKeyFn are inverse. Shapes the engine cannot classify (state kept in a way that is neither SSA-, cell- nor field-resolvable, reads through io.ReadFull, a nonce not built by copy+PutUint32+indexed store, tables computed by stdlib generics) give UNDECIDED, never VIOLATION."
 	r.Assumptions = append(r.Assumptions,
 		"io.Reader implementations obey the documented contract (0 <= n <= len(p); n bytes valid even when err != nil; (0,nil) allowed)",
 		"crypto/cipher.NewGCM and chacha20poly1305.New give 12-byte-nonce, 16-byte-tag AEADs; hkdf.New(hash, secret, salt, info) and hmac.New(hash,key) have their documented meaning; encoding/json encodes []byte as standard padded base64",
-		"schemes/enc/v1/README.md is the published spec")
+		"schemes/enc/v1/README.md is the published spec",
+		"memory model of the inlined flow: local cells and fields of local objects only; a location whose address escapes to code that is not expanded is treated flow-insensitively (all stored values); `go f()` is ordered like a call at the go statement; package-level error variables and errors.New/fmt.Errorf results are non-nil")
 
 	x := &c01Ctx{c: c, r: r, p: p, fns: p.FuncsOfPkg(c01Rel), pkg: p.ModPath + "/" + c01Rel}
 	p.Pkg(c01Rel) // anchor package must resolve
 
 	r.Rule("C01.R1a-count-before-err", "every Read: the returned count is used on a path that does not depend on that Read's error", 2)
 	r.Rule("C01.R1b-read-in-loop", "every Read sits in a loop whose exits never test the raw count of a single Read (short or empty reads are not 'end of data')", 2)
-	r.Rule("C01.R1c-segment-fill", "segment fill loop: exits only on count>=bound or err!=nil; read window capped at bound; look-ahead decision equals count>=bound with bound=segmentSize+1", 3)
+	r.Rule("C01.R1c-segment-fill", "segment fill loop: exits only on count>=bound or err!=nil; read window capped at bound; bound = spec segment size (+tag when decrypting) + 1 look-ahead byte", 4)
 	r.Rule("C01.R1d-success-err-nil", "header reader: a return that delivers the parsed header carries a nil error, never the error of the last Read (data may arrive together with io.EOF)", 1)
 	r.Rule("C01.R5-segment-args", "per-segment call: length, counter (0, +1), last flag = no look-ahead byte, look-ahead byte carried to the next segment, nothing after last", 5)
-	r.Rule("C01.R6-empty-message", "an empty input produces no segment and ends in a clean Close", 2)
+	r.Rule("C01.R6-empty-message", "an empty input produces no segment and ends in a clean Close", 1)
 	r.Rule("C01.R2-tables", "id/name tables agree with each other and with the README; JSON goes through them; getCipher covers the accepted ciphers with the AEAD the spec names", 27)
-	r.Rule("C01.R3-spec-constants", "constants, nonce layout, HKDF/HMAC/base64 parameters equal the README's", 18)
-	r.Rule("C01.R4-siblings", "encrypt/decrypt siblings agree (nonce function and arguments, nil AAD, segment sizes, MACed message, header size limit writer<=reader)", 15)
+	r.Rule("C01.R3-spec-constants", "constants, nonce layout, HKDF/HMAC/base64 parameters equal the README's", 23)
+	r.Rule("C01.R4-siblings", "encrypt/decrypt siblings agree (nonce function and arguments, nil AAD, segment sizes, MACed message, header size limit writer<=reader)", 5)
 	r.Rule("C01.R7-header-pushback", "bytes read beyond the third header line are re-prepended to the stream Decrypt continues with", 2)
-	r.Rule("C01.R8-manifest-wiring", "manifest fields and the keys/cipher/nonce prefix used for the payload are the same values on both sides; key-name precedence", 12)
+	r.Rule("C01.R8-manifest-wiring", "manifest fields and the keys/cipher/nonce prefix used for the payload are the same values on both sides; key-name precedence", 10)
 
 	spec, err := c01ReadSpec(filepath.Join(p.Dir, c01Rel, "README.md"))
 	if err != nil {
@@ -71,14 +77,20 @@ func checkC01(c *Ctx) {
 	}
 	x.spec = spec
 
-	x.readSites()
-	x.headerSuccessErr()
-	x.segmentLoop()
-	x.tables()
-	x.specConstants()
-	x.siblings()
-	x.headerPushback()
-	x.wiring()
+	x.fillReads = map[*ssa.Call]bool{}
+	x.dirs = map[string]*c01Dir{}
+	tm := func(what string, f func()) {
+		t0 := time.Now()
+		f()
+		if os.Getenv("C01_TIME") != "" {
+			fmt.Printf("TIME %-12s %v\n", what, time.Since(t0))
+		}
+	}
+	tm("pipelines", x.pipelines)
+	tm("R1d", x.headerSuccessErr)
+	tm("tables", x.tables)
+	tm("constants", x.specConstants)
+	tm("roles", x.roleRules)
 
 	if os.Getenv("C01_DUMP") != "" {
 		for _, o := range r.Obs {
@@ -88,7 +100,14 @@ func checkC01(c *Ctx) {
 
 	c.Fixture("c01read", func(fp *Prog, fr *Report) {
 		fx := &c01Ctx{c: c, r: fr, p: fp, fns: fp.Funcs}
-		fx.readSitesIn("R1a", "R1b")
+		for _, fn := range fp.Funcs {
+			if fn.Parent() != nil || fn.Name() == "init" || len(fn.Blocks) == 0 {
+				continue
+			}
+			fg := c01NewGraph(fp, fn)
+			name := FuncName(fp, fn)
+			fx.readRules(fg, "R1a", "R1b", func(cgRead) string { return name })
+		}
 	})
 }
 
@@ -114,827 +133,11 @@ func (x *c01Ctx) collectReads() []c01ReadSite {
 	return out
 }
 
-func (x *c01Ctx) readSites() { x.readSitesIn("C01.R1a-count-before-err", "C01.R1b-read-in-loop") }
-
-// errDependentConds: the dominating conditions of block b that are decided
-// after the call (their If lies in a block dominated by the call's block)
-// and whose condition depends on errv.
-func c01ErrConds(b *ssa.BasicBlock, call *ssa.Call, errv ssa.Value) []DomCond {
-	var out []DomCond
-	if errv == nil {
-		return nil
-	}
-	for _, dc := range domConds(b) {
-		ib := dc.If.Block()
-		if ib != call.Block() && !call.Block().Dominates(ib) {
-			continue
-		}
-		if c01DependsOn(dc.If.Cond, errv) {
-			out = append(out, dc)
-		}
-	}
-	return out
-}
-
-func (x *c01Ctx) readSitesIn(ruleA, ruleB string) {
-	r, p := x.r, x.p
-	for _, s := range x.collectReads() {
-		fname := FuncName(p, s.fn)
-		pos := p.Pos(s.call.Pos())
-		// R1a
-		cons := fname + " Read count"
-		if s.nn == nil || len(refs(s.nn)) == 0 {
-			r.Violation(ruleA, cons, pos, "the byte count returned by Read is discarded: data delivered by a short read (or together with an error/EOF) is lost or misplaced")
-		} else {
-			var uses []ssa.Instruction
-			for _, u := range refs(s.nn) {
-				if bo, ok := u.(*ssa.BinOp); ok && (bo.Op == token.ADD || bo.Op == token.SUB) {
-					uses = append(uses, u)
-				}
-			}
-			if len(uses) == 0 {
-				for _, u := range refs(s.nn) {
-					if _, ok := u.(*ssa.DebugRef); !ok {
-						uses = append(uses, u)
-					}
-				}
-			}
-			free := false
-			where := ""
-			for _, u := range uses {
-				ec := c01ErrConds(u.Block(), s.call, s.err)
-				if len(ec) == 0 {
-					free = true
-				} else {
-					where = p.Pos(instrPos(ec[0].If))
-				}
-			}
-			r.Check(free, ruleA, cons, pos, "count is consumed independently of the error result",
-				"the count returned by Read is only used after the error was tested (at "+where+"): bytes returned together with io.EOF (or any error) are dropped, so a reader that returns data with EOF truncates the message")
-		}
-		// R1b
-		cons = fname + " Read loop"
-		loops := c01Loops(s.fn)
-		l := c01InnermostLoop(loops, s.call.Block())
-		if l == nil {
-			r.Violation(ruleB, cons, pos, "a single Read outside any loop: io.Reader may return fewer bytes than asked (or zero) without being at the end, so the result depends on how the source chunks its reads")
-			continue
-		}
-		bad := ""
-		for _, ex := range l.exits() {
-			cond, br, ok := c01EdgeCond(ex.From, ex.To)
-			if !ok {
-				continue
-			}
-			if cmp, ok := decodeCond(cond, br); ok && s.nn != nil && (cmp.X == s.nn || cmp.Y == s.nn) {
-				bad = p.Pos(instrPos(ex.From.Instrs[len(ex.From.Instrs)-1]))
-			}
-		}
-		r.Check(bad == "", ruleB, cons, pos, "Read is retried in a loop; no exit tests the raw count",
-			"the read loop is left (at "+bad+") because a single Read returned a particular count: a short or zero-length read is not the end of the data")
-	}
-}
-
 // ---------------------------------------------------------------- R1c, R5, R6
-
-// c01SegFnCall finds the call through a func-typed parameter with the
-// processSegmentFn shape (…, []byte, uint32, bool) error.
-func c01SegFnCall(fn *ssa.Function) *ssa.Call {
-	var out *ssa.Call
-	allInstrs(fn, func(in ssa.Instruction) {
-		call, ok := in.(*ssa.Call)
-		if !ok || call.Call.IsInvoke() {
-			return
-		}
-		if _, ok := call.Call.Value.(*ssa.Parameter); !ok {
-			return
-		}
-		if len(call.Call.Args) == 4 {
-			out = call
-		}
-	})
-	return out
-}
-
-func (x *c01Ctx) segmentLoop() {
-	r, p := x.r, x.p
-	ps := p.Func(c01Rel, "processSegments")
-	fname := FuncName(p, ps)
-	seg := c01SegFnCall(ps)
-	if seg == nil {
-		r.Undecide("C01: %s no longer calls a per-segment function parameter (out, data, num, last)", fname)
-		return
-	}
-	var site *c01ReadSite
-	for _, s := range x.collectReads() {
-		if s.fn == ps {
-			s := s
-			site = &s
-		}
-	}
-	if site == nil {
-		// accepted alternative: io.ReadFull / io.ReadAtLeast implement the contract themselves
-		alt := false
-		allInstrs(ps, func(in ssa.Instruction) {
-			if c, ok := in.(*ssa.Call); ok && (callIs(c, "io", "", "ReadFull") || callIs(c, "io", "", "ReadAtLeast")) {
-				alt = true
-			}
-		})
-		if alt {
-			r.Undecide("C01.R1c: %s fills segments through io.ReadFull/ReadAtLeast; the look-ahead rules are written for the explicit fill loop and must be re-derived", fname)
-		} else {
-			r.Undecide("C01.R1c: no Read of the input found in %s (moved to a helper?)", fname)
-		}
-		return
-	}
-	if site.nn == nil || site.err == nil {
-		return // already reported by R1a
-	}
-	pos := p.Pos(site.call.Pos())
-	acc := c01Forward(site.nn)
-	loops := c01Loops(ps)
-	inner := c01InnermostLoop(loops, site.call.Block())
-	if inner == nil {
-		return // reported by R1b
-	}
-
-	// --- exits of the fill loop
-	var bound *c01Lin
-	bad := ""
-	for _, ex := range inner.exits() {
-		cond, br, ok := c01EdgeCond(ex.From, ex.To)
-		at := p.Pos(instrPos(ex.From.Instrs[len(ex.From.Instrs)-1]))
-		if !ok {
-			bad = "unconditionally at " + at
-			continue
-		}
-		if cmp, ok := decodeCond(cond, br); ok {
-			a, y, op := cmp.X, cmp.Y, cmp.Op
-			if !acc[a] && acc[y] {
-				a, y = y, a
-				switch op {
-				case token.LSS:
-					op = token.GTR
-				case token.GTR:
-					op = token.LSS
-				case token.LEQ:
-					op = token.GEQ
-				case token.GEQ:
-					op = token.LEQ
-				}
-			}
-			if acc[a] && !acc[y] {
-				l := c01Linear(y)
-				switch op {
-				case token.GEQ, token.EQL:
-				case token.GTR:
-					l.K++
-				default:
-					bad = "when the accumulated count is BELOW a limit, at " + at
-					continue
-				}
-				if bound != nil && *bound != l {
-					bad = "on two different count limits (" + bound.String() + " and " + l.String() + ")"
-				}
-				bound = &l
-				continue
-			}
-		}
-		if c01ErrTest(cond, site.err) {
-			continue // err-driven exit
-		}
-		bad = "on a condition that is neither 'count reached the limit' nor 'Read returned an error', at " + at
-	}
-	r.Check(bad == "" && bound != nil, "C01.R1c-segment-fill", fname+" fill-loop exits", pos,
-		"fill loop is left only when the count reached "+c01LinStr(bound)+" or an error was seen",
-		"the segment fill loop can be left "+bad+c01NoBound(bound)+": a source that chunks its reads differently yields different segment boundaries / an early 'last segment'")
-	if bound == nil {
-		return
-	}
-	// --- read window
-	if sl, ok := site.call.Call.Args[0].(*ssa.Slice); ok && sl.High != nil {
-		h := c01Linear(sl.High)
-		r.Check(h == *bound, "C01.R1c-segment-fill", fname+" read window", pos,
-			"Read is offered buf[n:"+h.String()+"], the same bound as the loop limit",
-			"Read is offered a window ending at "+h.String()+" while the fill loop stops at "+bound.String()+": a reader delivering more at once overfills the segment (segments longer than the spec's size) or the limit is never reached")
-	} else if len(site.call.Call.Args) == 1 {
-		if _, ok := site.call.Call.Args[0].(*ssa.Slice); ok {
-			r.Violation("C01.R1c-segment-fill", fname+" read window", pos, "Read is offered the buffer up to its full length, not capped at the fill limit "+bound.String()+": a reader delivering more than one segment at once overfills the segment")
-		} else {
-			r.Undecide("C01.R1c: cannot resolve the window passed to Read in %s", fname)
-		}
-	}
-
-	// --- the per-segment call
-	args := seg.Call.Args
-	dataArg, numArg, lastArg := args[1], args[2], args[3]
-	segPos := p.Pos(seg.Pos())
-
-	// size parameter: bound must be sizeParam+1
-	var sizeParam ssa.Value
-	for _, pa := range ps.Params {
-		if b, ok := pa.Type().Underlying().(*types.Basic); ok && b.Info()&types.IsInteger != 0 {
-			sizeParam = pa
-		}
-	}
-
-	// look-ahead decision: controls `last`
-	moreSucc, lookIf, why := x.lookahead(lastArg, acc, *bound, site.err)
-	switch {
-	case why == "const":
-		r.Violation("C01.R5-segment-args", fname+" last flag", segPos, "the 'last' argument of the per-segment call is a constant: the nonce's last-segment byte no longer says whether this is the final segment (spec: 0x01 only on the last segment)")
-	case why != "":
-		r.Violation("C01.R5-segment-args", fname+" last flag", segPos, why)
-	case lookIf == nil:
-		r.Undecide("C01.R5: cannot relate the 'last' argument in %s to a comparison of the filled count with the fill limit", fname)
-	default:
-		r.OK("C01.R5-segment-args", fname+" last flag", segPos, "last = (count did not reach "+bound.String()+")")
-		okB := sizeParam != nil && bound.Base == sizeParam && bound.K == 1
-		r.Check(okB, "C01.R1c-segment-fill", fname+" look-ahead bound", p.Pos(instrPos(lookIf)),
-			"fill limit and look-ahead threshold are segmentSize+1",
-			"the fill limit / look-ahead threshold is "+bound.String()+" instead of segmentSize+1: exactly one byte of look-ahead is what distinguishes a full last segment from a non-last one")
-	}
-
-	// length of the slice handed over
-	if lookIf != nil && why == "" {
-		x.segLength(ps, fname, dataArg, lookIf, moreSucc, acc, *bound, segPos)
-	}
-
-	// carry-over byte
-	if lookIf != nil && why == "" {
-		x.carryOver(ps, fname, site, lookIf, acc, *bound, segPos)
-	}
-
-	// counter
-	x.segCounter(ps, fname, numArg, loops, seg, segPos)
-
-	// nothing after last
-	x.nothingAfterLast(ps, fname, seg, lastArg, segPos)
-
-	// empty message
-	x.emptyMessage(ps, fname, seg, dataArg, segPos)
-}
-
-func c01LinStr(l *c01Lin) string {
-	if l == nil {
-		return "?"
-	}
-	return l.String()
-}
-func c01NoBound(l *c01Lin) string {
-	if l == nil {
-		return " (no exit on the accumulated count found)"
-	}
-	return ""
-}
 
 // lookahead relates the `last` value to an If comparing the accumulated count
 // with the bound. Returns the successor block on which "count >= bound"
 // (more data follows) holds, the If, and a violation text (or "").
-// errDriven is the violation text for a finality decision taken from the Read error.
-const c01ErrDriven = "whether this is the last segment (and whether a look-ahead byte is carried over) is decided from the Read error instead of from the filled count: io.Reader may return the byte that fills the look-ahead together with io.EOF, so the error says nothing about whether the look-ahead byte was read — a plaintext of k*65536+1 bytes from such a reader is sealed as one oversized last segment (spec: segments are 65,536 bytes, only the last may be shorter)"
-
-func (x *c01Ctx) lookahead(last ssa.Value, acc map[ssa.Value]bool, bound c01Lin, errv ssa.Value) (*ssa.BasicBlock, *ssa.If, string) {
-	if _, ok := last.(*ssa.Const); ok {
-		return nil, nil, "const"
-	}
-	// geBound: does cmp (true branch) mean count >= bound (1), count < bound (-1), or neither (0)
-	classify := func(cond ssa.Value) int {
-		cmp, ok := decodeCond(cond, true)
-		if !ok {
-			return 0
-		}
-		a, y, op := cmp.X, cmp.Y, cmp.Op
-		if !acc[a] && acc[y] {
-			a, y = y, a
-			switch op {
-			case token.LSS:
-				op = token.GTR
-			case token.GTR:
-				op = token.LSS
-			case token.LEQ:
-				op = token.GEQ
-			case token.GEQ:
-				op = token.LEQ
-			}
-		}
-		if !acc[a] || acc[y] {
-			return 0
-		}
-		l := c01Linear(y)
-		switch op {
-		case token.GTR: // a > y  == a >= y+1
-			l.K++
-			if l == bound {
-				return 1
-			}
-			return 2
-		case token.GEQ, token.EQL:
-			if l == bound {
-				return 1
-			}
-			return 2
-		case token.LSS, token.NEQ:
-			if l == bound {
-				return -1
-			}
-			return 2
-		case token.LEQ:
-			l.K++
-			if l == bound {
-				return -1
-			}
-			return 2
-		}
-		return 0
-	}
-	if _, isPhi := last.(*ssa.Phi); !isPhi && errv != nil && c01ErrTest(last, errv) {
-		return nil, nil, c01ErrDriven
-	}
-	switch v := last.(type) {
-	case *ssa.Phi:
-		idom := v.Block().Idom()
-		if idom == nil || len(idom.Instrs) == 0 {
-			return nil, nil, ""
-		}
-		ifi, ok := idom.Instrs[len(idom.Instrs)-1].(*ssa.If)
-		if !ok {
-			return nil, nil, ""
-		}
-		k := classify(ifi.Cond)
-		if k == 0 {
-			if errv != nil && c01ErrTest(ifi.Cond, errv) {
-				return nil, ifi, c01ErrDriven
-			}
-			for _, e := range v.Edges {
-				if _, isK := e.(*ssa.Const); !isK && errv != nil && c01ErrTest(e, errv) {
-					return nil, ifi, c01ErrDriven
-				}
-			}
-			return nil, nil, ""
-		}
-		if k == 2 {
-			return nil, ifi, "the look-ahead decision that sets 'last' compares the filled count with a threshold different from the fill limit " + bound.String() + ": a message whose final segment has exactly the other length is split or flagged wrongly"
-		}
-		more, noMore := idom.Succs[0], idom.Succs[1]
-		if k == -1 {
-			more, noMore = noMore, more
-		}
-		for i, e := range v.Edges {
-			pred := v.Block().Preds[i]
-			var side *ssa.BasicBlock
-			switch {
-			case pred == idom && v.Block() == more, edgeDominates(idom, more, pred):
-				side = more
-			case pred == idom && v.Block() == noMore, edgeDominates(idom, noMore, pred):
-				side = noMore
-			default:
-				return nil, nil, ""
-			}
-			val, known := c01BoolAt(e, pred)
-			if !known {
-				return nil, nil, ""
-			}
-			if side == more && val {
-				return nil, ifi, "'last' is true although a look-ahead byte was read (more data follows): the segment is sealed with the last-segment nonce and another segment follows it"
-			}
-			if side == noMore && !val {
-				return nil, ifi, "'last' is false although no look-ahead byte was read: the final segment is sealed with the non-last nonce (spec: last_segment = 0x01 on the last segment)"
-			}
-		}
-		return more, ifi, ""
-	case *ssa.BinOp, *ssa.UnOp:
-		if errv != nil && c01ErrTest(v, errv) {
-			return nil, nil, c01ErrDriven
-		}
-		k := classify(v)
-		if k == -1 {
-			// last := count < bound ; find an If on the same comparison for the length rule
-			return nil, nil, ""
-		}
-		if k == 1 {
-			return nil, nil, "'last' is computed as 'count reached the fill limit', i.e. inverted"
-		}
-	}
-	return nil, nil, ""
-}
-
-func (x *c01Ctx) segLength(ps *ssa.Function, fname string, dataArg ssa.Value, lookIf *ssa.If, more *ssa.BasicBlock, acc map[ssa.Value]bool, bound c01Lin, pos string) {
-	r := x.r
-	sl, ok := dataArg.(*ssa.Slice)
-	if !ok || sl.High == nil {
-		r.Undecide("C01.R5: the data argument of the per-segment call in %s is not a window buf[:n]", fname)
-		return
-	}
-	if sl.Low != nil {
-		if k, ok := c01ConstInt(sl.Low); !ok || k != 0 {
-			r.Violation("C01.R5-segment-args", fname+" segment length", pos, "the segment handed over does not start at the beginning of the buffer (the carried-over byte at index 0 is skipped)")
-			return
-		}
-	}
-	// the compared count
-	cmp, _ := decodeCond(lookIf.Cond, true)
-	cnt := cmp.X
-	if !acc[cnt] {
-		cnt = cmp.Y
-	}
-	want := func(side bool, l c01Lin) bool { // side=true: more data
-		if side {
-			return (l.Base == cnt && l.K == -1) || (l.Base == bound.Base && l.K == bound.K-1)
-		}
-		return l.Base == cnt && l.K == 0
-	}
-	idom := lookIf.Block()
-	phi, ok := sl.High.(*ssa.Phi)
-	if !ok || phi.Block().Idom() != idom {
-		// one expression for both outcomes: it cannot be count-1 with look-ahead and count without
-		l := c01Linear(sl.High)
-		if l.Base == cnt || l.Base == bound.Base || l.Base == nil {
-			r.Violation("C01.R5-segment-args", fname+" segment length", pos, "the segment length is "+l.String()+" whether or not a look-ahead byte was read; it must be count-1 with look-ahead (the extra byte belongs to the next segment) and count without")
-			return
-		}
-	}
-	if !ok || phi.Block().Idom() != idom {
-		r.Undecide("C01.R5: cannot relate the segment length in %s to the two outcomes of the look-ahead test", fname)
-		return
-	}
-	bad := ""
-	for i, e := range phi.Edges {
-		pred := phi.Block().Preds[i]
-		isMore := edgeDominates(idom, more, pred) || (pred == idom && phi.Block() == more)
-		l := c01Linear(e)
-		if !want(isMore, l) {
-			if isMore {
-				bad = "when a look-ahead byte was read the segment length is " + l.String() + " instead of count-1: the look-ahead byte is encrypted twice (or data is dropped)"
-			} else {
-				bad = "when no look-ahead byte was read the segment length is " + l.String() + " instead of the filled count"
-			}
-		}
-	}
-	r.Check(bad == "", "C01.R5-segment-args", fname+" segment length", pos, "length = count-1 with look-ahead, count without", bad)
-}
-
-func (x *c01Ctx) segCounter(ps *ssa.Function, fname string, num ssa.Value, loops []*c01Loop, seg *ssa.Call, pos string) {
-	r := x.r
-	cons := fname + " segment counter"
-	phi, ok := num.(*ssa.Phi)
-	if !ok {
-		switch num.(type) {
-		case *ssa.Const:
-			r.Violation("C01.R5-segment-args", cons, pos, "the segment number handed to the per-segment function is a constant: every segment is sealed with the same counter (spec: sequence number 0,1,2,… in the nonce)")
-		case *ssa.BinOp:
-			r.Violation("C01.R5-segment-args", cons, pos, "the segment number handed over is an expression of the loop counter, not the counter itself: the first segment is not number 0 (spec: 'The first segment has sequence number 0')")
-		default:
-			r.Undecide("C01.R5: segment number argument in %s is not a loop-carried counter", fname)
-		}
-		return
-	}
-	var loop *c01Loop
-	for _, l := range loops {
-		if l.Head == phi.Block() {
-			loop = l
-		}
-	}
-	if loop == nil || !loop.Body[seg.Block()] {
-		r.Undecide("C01.R5: segment counter in %s is not carried by the loop that contains the per-segment call", fname)
-		return
-	}
-	bad := ""
-	for i, e := range phi.Edges {
-		pred := phi.Block().Preds[i]
-		if !loop.Body[pred] {
-			if k, ok := c01ConstInt(e); !ok || k != 0 {
-				bad = "the segment counter does not start at 0 (spec: first segment has sequence number 0)"
-			}
-			continue
-		}
-		l := c01Linear(e)
-		if l.Base != phi || l.K != 1 {
-			bad = "the segment counter is not advanced by exactly 1 per processed segment (got " + l.String() + ")"
-		}
-	}
-	r.Check(bad == "", "C01.R5-segment-args", cons, pos, "counter starts at 0 and is incremented by 1 on the way back to the loop head", bad)
-}
-
-// nothingAfterLast: assuming last==true, the per-segment call is not reachable again.
-func (x *c01Ctx) nothingAfterLast(ps *ssa.Function, fname string, seg *ssa.Call, last ssa.Value, pos string) {
-	type st struct{ b, pred *ssa.BasicBlock }
-	seen := map[st]bool{}
-	again := false
-	var resolve func(v ssa.Value, b, pred *ssa.BasicBlock) (bool, bool)
-	resolve = func(v ssa.Value, b, pred *ssa.BasicBlock) (bool, bool) {
-		if v == last {
-			return true, true
-		}
-		if u, ok := v.(*ssa.UnOp); ok && u.Op == token.NOT {
-			val, k := resolve(u.X, b, pred)
-			return !val, k
-		}
-		if phi, ok := v.(*ssa.Phi); ok && phi.Block() == b && pred != nil {
-			for i, p := range b.Preds {
-				if p == pred {
-					e := phi.Edges[i]
-					if e == last {
-						return true, true
-					}
-					if c, ok := e.(*ssa.Const); ok {
-						if val, k := c01BoolAt(c, b); k {
-							return val, true
-						}
-					}
-				}
-			}
-		}
-		return false, false
-	}
-	var walk func(b, pred *ssa.BasicBlock)
-	walk = func(b, pred *ssa.BasicBlock) {
-		if seen[st{b, pred}] {
-			return
-		}
-		seen[st{b, pred}] = true
-		if b == seg.Block() && pred != nil {
-			again = true
-			return
-		}
-		if len(b.Instrs) > 0 {
-			if ifi, ok := b.Instrs[len(b.Instrs)-1].(*ssa.If); ok {
-				if val, k := resolve(ifi.Cond, b, pred); k {
-					if val {
-						walk(b.Succs[0], b)
-					} else {
-						walk(b.Succs[1], b)
-					}
-					return
-				}
-			}
-		}
-		for _, s := range b.Succs {
-			walk(s, b)
-		}
-	}
-	walk(seg.Block(), nil)
-	x.r.Check(!again, "C01.R5-segment-args", fname+" nothing after last", pos, "after a segment flagged last the loop is left",
-		"after a segment was handed over with last=true the loop can come round and process another segment: the ciphertext has data after the segment sealed as last (spec: the flag marks the final segment)")
-}
-
-func (x *c01Ctx) emptyMessage(ps *ssa.Function, fname string, seg *ssa.Call, dataArg ssa.Value, pos string) {
-	r, p := x.r, x.p
-	sl, ok := dataArg.(*ssa.Slice)
-	if !ok || sl.High == nil {
-		return
-	}
-	n := sl.High
-	var emptySide *ssa.BasicBlock
-	guarded := false
-	for _, dc := range domConds(seg.Block()) {
-		cmp, ok := decodeCond(dc.If.Cond, dc.Branch)
-		if !ok {
-			continue
-		}
-		a, y := cmp.X, cmp.Y
-		if a != n {
-			continue
-		}
-		k, isK := c01ConstInt(y)
-		if !isK {
-			continue
-		}
-		if (cmp.Op == token.NEQ && k == 0) || (cmp.Op == token.GTR && k == 0) || (cmp.Op == token.GEQ && k == 1) {
-			guarded = true
-			ib := dc.If.Block()
-			if dc.Branch {
-				emptySide = ib.Succs[1]
-			} else {
-				emptySide = ib.Succs[0]
-			}
-		}
-	}
-	if !guarded {
-		// accepted alternative: the sealing function returns nil on empty data
-		alt := false
-		if seal := x.segmentFns()["seal"]; seal != nil {
-			for _, b := range seal.Blocks {
-				if len(b.Instrs) == 0 {
-					continue
-				}
-				ret, ok := b.Instrs[len(b.Instrs)-1].(*ssa.Return)
-				if !ok || len(ret.Results) != 1 || !isNilConst(ret.Results[0]) {
-					continue
-				}
-				for _, dc := range domConds(b) {
-					if cmp, ok := decodeCond(dc.If.Cond, dc.Branch); ok && cmp.Op == token.EQL {
-						if c, ok := cmp.X.(*ssa.Call); ok && builtinName(c) == "len" {
-							if k, ok := c01ConstInt(cmp.Y); ok && k == 0 {
-								alt = true
-							}
-						}
-					}
-				}
-			}
-		}
-		r.Check(alt, "C01.R6-empty-message", fname+" no segment for empty input", pos, "empty data is skipped inside the sealing function",
-			"the per-segment function is called even when no byte was read: an empty message yields a stream error (EncryptSegment rejects empty data) or an empty 16-byte segment, but the spec says an empty file has no segment at all")
-		return
-	}
-	r.OK("C01.R6-empty-message", fname+" no segment for empty input", pos, "the per-segment call is guarded by length != 0")
-	// from the empty side a clean Close must be reachable without CloseWithError / the segment call
-	stop := map[*ssa.BasicBlock]bool{}
-	closeBlocks := map[*ssa.BasicBlock]bool{}
-	for _, b := range ps.Blocks {
-		for _, in := range b.Instrs {
-			if c, ok := in.(*ssa.Call); ok {
-				if callIs(c, "io", "PipeWriter", "CloseWithError") || c == seg {
-					stop[b] = true
-				}
-				if callIs(c, "io", "PipeWriter", "Close") {
-					closeBlocks[b] = true
-				}
-			}
-		}
-	}
-	reach := reachableFrom(emptySide, stop)
-	ok2 := false
-	for b := range closeBlocks {
-		if reach[b] && !stop[b] {
-			ok2 = true
-		}
-	}
-	r.Check(ok2, "C01.R6-empty-message", fname+" empty input closes cleanly", p.Pos(instrPos(emptySide.Instrs[0])), "the zero-length path reaches out.Close()",
-		"when nothing was read there is no path to a clean out.Close(): an empty plaintext can only end in a stream error, so it does not round-trip")
-}
-
-// c01ErrTest: cond is `e ==/!= nil` or errors.Is/As(e, …) (possibly negated)
-// where e carries the error result errv (directly, through phis or a local cell).
-func c01ErrTest(cond ssa.Value, errv ssa.Value) bool {
-	carries := func(v ssa.Value) bool {
-		seen := map[ssa.Value]bool{}
-		var walk func(x ssa.Value) bool
-		walk = func(x ssa.Value) bool {
-			if x == errv {
-				return true
-			}
-			if seen[x] {
-				return false
-			}
-			seen[x] = true
-			switch y := x.(type) {
-			case *ssa.Phi:
-				for _, e := range y.Edges {
-					if walk(e) {
-						return true
-					}
-				}
-			case *ssa.UnOp:
-				if a, ok := y.X.(*ssa.Alloc); ok && y.Op == token.MUL {
-					for _, s := range c01Stores(a) {
-						if walk(s) {
-							return true
-						}
-					}
-				}
-			case *ssa.ChangeInterface:
-				return walk(y.X)
-			}
-			return false
-		}
-		return walk(v)
-	}
-	if cmp, ok := decodeCond(cond, true); ok && (cmp.Op == token.EQL || cmp.Op == token.NEQ) {
-		if isNilConst(cmp.Y) && carries(cmp.X) || isNilConst(cmp.X) && carries(cmp.Y) {
-			return true
-		}
-		// err == io.EOF style
-		if carries(cmp.X) || carries(cmp.Y) {
-			return true
-		}
-	}
-	if call, _, ok := boolCallCond(cond, true); ok && (callIs(call, "errors", "", "Is") || callIs(call, "errors", "", "As")) {
-		return len(call.Call.Args) > 0 && carries(call.Call.Args[0])
-	}
-	return false
-}
-
-// c01AccCore: the running total a Read count is added into: the additions of
-// nn and the phis (transitively) merging them — not values computed from them.
-func c01AccCore(nn ssa.Value) map[ssa.Value]bool {
-	core := map[ssa.Value]bool{}
-	var work []ssa.Value
-	for _, u := range refs(nn) {
-		if bo, ok := u.(*ssa.BinOp); ok && bo.Op == token.ADD {
-			core[bo] = true
-			work = append(work, bo)
-		}
-	}
-	for len(work) > 0 {
-		v := work[0]
-		work = work[1:]
-		for _, u := range refs(v) {
-			if phi, ok := u.(*ssa.Phi); ok && !core[phi] {
-				core[phi] = true
-				work = append(work, phi)
-			}
-		}
-	}
-	return core
-}
-
-// c01BufCell: the local cell at the bottom of the load chain a buffer value
-// comes from ((*buf)[i] -> buf).
-func c01BufCell(v ssa.Value) ssa.Value {
-	for i := 0; i < 6; i++ {
-		switch y := v.(type) {
-		case *ssa.Slice:
-			v = y.X
-		case *ssa.UnOp:
-			if y.Op != token.MUL {
-				return v
-			}
-			v = y.X
-		case *ssa.IndexAddr:
-			v = y.X
-		default:
-			return v
-		}
-	}
-	return v
-}
-
-// carryOver: the look-ahead byte (buffer[count-1] on the "more" outcome) is
-// what a store to buffer[0] writes, and the running count restarts at 1 there.
-func (x *c01Ctx) carryOver(ps *ssa.Function, fname string, site *c01ReadSite, lookIf *ssa.If, acc map[ssa.Value]bool, bound c01Lin, pos string) {
-	r, p := x.r, x.p
-	cons := fname + " carry-over byte"
-	cell := c01BufCell(site.call.Call.Args[0])
-	cmp, _ := decodeCond(lookIf.Cond, true)
-	cnt := cmp.X
-	if !acc[cnt] {
-		cnt = cmp.Y
-	}
-	isLookaheadLoad := func(v ssa.Value) bool {
-		u, ok := v.(*ssa.UnOp)
-		if !ok || u.Op != token.MUL {
-			return false
-		}
-		ia, ok := u.X.(*ssa.IndexAddr)
-		if !ok || c01BufCell(ia.X) != cell {
-			return false
-		}
-		l := c01Linear(ia.Index)
-		return (l.Base == cnt && l.K == -1) || (l.Base == bound.Base && l.K == bound.K-1)
-	}
-	var stores []*ssa.Store
-	allInstrs(ps, func(in ssa.Instruction) {
-		st, ok := in.(*ssa.Store)
-		if !ok {
-			return
-		}
-		ia, ok := st.Addr.(*ssa.IndexAddr)
-		if !ok || c01BufCell(ia.X) != cell {
-			return
-		}
-		if k, ok := c01ConstInt(ia.Index); ok && k == 0 {
-			stores = append(stores, st)
-		}
-	})
-	if len(stores) == 0 {
-		r.Violation("C01.R5-segment-args", cons, pos, "a look-ahead byte is read to detect the end of the input but nothing ever stores it at the start of the buffer for the next segment: one plaintext byte is lost at every segment boundary")
-		return
-	}
-	core := c01AccCore(site.nn)
-	for _, st := range stores {
-		carries := false
-		for v := range c01Cone(st.Val) {
-			if isLookaheadLoad(v) {
-				carries = true
-			}
-		}
-		if !carries {
-			r.Violation("C01.R5-segment-args", cons, p.Pos(st.Pos()), "the byte stored at the start of the buffer for the next segment is not the look-ahead byte buffer[count-1]: a wrong byte is injected at every segment boundary")
-			return
-		}
-		restart := false
-		for v := range core {
-			phi, ok := v.(*ssa.Phi)
-			if !ok {
-				continue
-			}
-			for i, e := range phi.Edges {
-				if k, ok := c01ConstInt(e); ok && k == 1 {
-					pred := phi.Block().Preds[i]
-					if pred == st.Block() || st.Block().Dominates(pred) {
-						restart = true
-					}
-				}
-			}
-		}
-		if !restart {
-			r.Violation("C01.R5-segment-args", cons, p.Pos(st.Pos()), "after restoring the look-ahead byte at buffer[0] the running count does not restart at 1: the restored byte is overwritten by the next Read (or counted twice)")
-			return
-		}
-	}
-	r.OK("C01.R5-segment-args", cons, pos, "buffer[0] = buffer[count-1] of the previous fill, count restarts at 1")
-}
 
 // c01CarriesErr: v is (a phi / local-cell copy of) one of the given Read errors.
 func c01CarriesErr(v ssa.Value, errs map[ssa.Value]bool) bool {
@@ -976,24 +179,65 @@ func c01CarriesErr(v ssa.Value, errs map[ssa.Value]bool) bool {
 // constant, a value known nil on that path, or a cell that cannot hold a
 // Read error there.
 func (x *c01Ctx) headerSuccessErr() {
-	r, p := x.r, x.p
-	rh := p.Func(c01Rel, "readHeader")
-	fname := FuncName(p, rh)
-	errs := map[ssa.Value]bool{}
-	for _, s := range x.collectReads() {
-		if s.fn == rh && s.err != nil {
-			errs[s.err] = true
-		}
-	}
-	if len(errs) == 0 {
-		return // R1a already reports a Read without error use / R7 reports no Read
-	}
-	res := rh.Signature.Results()
-	errIdx := res.Len() - 1
-	if errIdx < 1 || !types.Identical(res.At(errIdx).Type(), types.Universe.Lookup("error").Type()) {
-		r.Undecide("C01.R1d: %s no longer returns (data…, error)", fname)
+	r := x.r
+	d := x.dirs["Decrypt"]
+	if d == nil || d.fill == nil {
+		r.Undecide("C01.R1d: the Decrypt pipeline was not resolved; header reader not located")
 		return
 	}
+	// header Reads: the Reads under Decrypt that are not the segment fill; for each, the functions between
+	// Decrypt and the Read that return (data…, error) are header parsers
+	n := 0
+	done := map[*ssa.Function]bool{}
+	for _, s := range d.reads {
+		if s.n == d.fill.n || d.driver.Body[s.n] || s.err.V == nil {
+			continue
+		}
+		errs := map[ssa.Value]bool{s.err.V: true}
+		for c := s.n.C; c != nil && c.parent != nil; c = c.parent {
+			res := c.fn.Signature.Results()
+			if res.Len() >= 2 && types.Identical(res.At(res.Len()-1).Type(), types.Universe.Lookup("error").Type()) {
+				hasData := false
+				for i := 0; i < res.Len()-1; i++ {
+					if _, ok := res.At(i).Type().Underlying().(*types.Slice); ok {
+						hasData = true
+					}
+				}
+				if hasData && !done[c.fn] {
+					done[c.fn] = true
+					n++
+					x.successErrNil(c.fn, errs)
+				}
+			}
+			// one level up the error of this call plays the role of the Read error
+			errs = map[ssa.Value]bool{}
+			if call, ok := c.site.(*ssa.Call); ok {
+				sig := call.Call.Signature()
+				for i := 0; i < sig.Results().Len(); i++ {
+					if types.Identical(sig.Results().At(i).Type(), types.Universe.Lookup("error").Type()) {
+						if v := callResult(call, i); v != nil {
+							errs[v] = true
+						}
+					}
+				}
+			}
+			if len(errs) == 0 {
+				break
+			}
+		}
+	}
+	if n == 0 {
+		r.Undecide("C01.R1d: no function returning (header bytes…, error) found between Decrypt and its header Read")
+	}
+}
+
+// successErrNil: in fn, a return whose data results are not nil constants
+// carries a nil error, never (a copy of) one of errs.
+func (x *c01Ctx) successErrNil(rh *ssa.Function, errs map[ssa.Value]bool) {
+	r, p := x.r, x.p
+	fname := FuncName(p, rh)
+	res := rh.Signature.Results()
+	errIdx := res.Len() - 1
 	// value of result i at a return: through the named-result cell, the last
 	// store in the returning block (nil = content of the cell on entry to the block)
 	type resv struct {
